@@ -199,17 +199,38 @@ func check(r *fw.R, sps []oracle.Subpath) {
 			continue
 		}
 		scale2 := math.Max(oracle.MaxAbsCoord(img), 1e-300)
-		if d := b2.maxDiff(mapBox(iso.m, b)); !(d <= 1e-9*scale2) {
+		// an arc is given by its end points: the direction of a short chord, and with it the centre,
+		// is only defined to (rounding of the coordinates / chord length) x radius
+		eqTol := 1e-9*scale2 + chordConditioning(img)
+		if d := b2.maxDiff(mapBox(iso.m, b)); !(d <= eqTol) {
 			viol(r, sps, "bounds-not-equivariant:"+offender(sps, box{math.Inf(-1), math.Inf(-1), math.Inf(1), math.Inf(1)}, 0), fmt.Sprintf("Bounds(%s path)=%v but %s of Bounds=%v (differs by %.3g)", iso.name, b2, iso.name, mapBox(iso.m, b), d))
 		} else {
 			r.Max("bounds_equivariance_diff/scale", d/scale2)
 		}
-		if d := fb2.maxDiff(mapBox(iso.m, fb)); !(d <= 1e-9*scale2) {
+		if d := fb2.maxDiff(mapBox(iso.m, fb)); !(d <= eqTol) {
 			viol(r, sps, "fastbounds-not-equivariant:"+offender(sps, box{math.Inf(-1), math.Inf(-1), math.Inf(1), math.Inf(1)}, 0), fmt.Sprintf("FastBounds(%s path)=%v but %s of FastBounds=%v (differs by %.3g)", iso.name, fb2, iso.name, mapBox(iso.m, fb), d))
 		} else {
 			r.Max("fastbounds_equivariance_diff/scale", d/scale2)
 		}
 	}
+}
+
+// chordConditioning: how far the centre of the worst conditioned arc of the path may move when
+// its end points are rounded (16 ulps of the largest coordinate over the chord length, times the
+// larger radius); zero without arcs.
+func chordConditioning(sps []oracle.Subpath) float64 {
+	c := 0.0
+	m := oracle.MaxAbsCoord(sps)
+	for _, sp := range sps {
+		for _, s := range sp.Segs {
+			if s.Kind == oracle.CmdArc {
+				if chord := math.Hypot(s.P1.X-s.P0.X, s.P1.Y-s.P0.Y); chord > 0 {
+					c = math.Max(c, 16*2.2e-16*m/chord*math.Max(s.Rx, s.Ry))
+				}
+			}
+		}
+	}
+	return c
 }
 
 func endpoints(sp oracle.Subpath) []oracle.Pt {
@@ -301,13 +322,13 @@ func chains(k int) fw.Family {
 	}
 }
 
-// tinyChords: arcs whose end points are 3e-7 .. 1e-4 apart (far above Epsilon): almost closed
+// tinyChords: arcs whose end points are 1e-8 .. 1e-4 rad apart (far above Epsilon): almost closed
 // ellipses drawn by one large arc, and very short arcs, on circles and (rotated) ellipses of size
-// 1 and 50, starting at 5 angles, both directions.
+// 1, 50 and 1000, starting at 5 angles, both directions.
 func tinyChords() fw.Family {
 	type geo struct{ rx, ry, rot float64 }
-	geos := []geo{{1, 1, 0}, {50, 50, 0}, {2, 1, 0}, {2, 1, 30}, {50, 20, 90}, {60, 45, 37}}
-	gaps := []float64{3e-7, 1e-6, 1e-5, 1e-4} // central angle between the end points
+	geos := []geo{{1, 1, 0}, {50, 50, 0}, {2, 1, 0}, {2, 1, 30}, {50, 20, 90}, {60, 45, 37}, {1000, 1000, 0}}
+	gaps := []float64{1e-8, 3e-7, 1e-6, 1e-5, 1e-4} // central angle between the end points
 	th0s := []float64{0, 0.7, 1.5707963267948966, 3, 4.6}
 	rad := []int{len(geos), len(gaps), len(th0s), 2, 2}
 	get := func(i int64) []oracle.Subpath {
@@ -325,7 +346,7 @@ func tinyChords() fw.Family {
 		return curvefam.One(oracle.MkArc(p0, g.rx, g.ry, g.rot, large, sweep, p1))
 	}
 	return fw.Family{
-		Name: "arcs with end points 3e-7..1e-4 rad apart (almost closed large arcs and very short arcs) on 6 ellipses x 5 start angles x both directions", N: oracle.Prod(rad...),
+		Name: "arcs with end points 1e-8..1e-4 rad apart (almost closed large arcs and very short arcs) on 7 ellipses x 5 start angles x both directions", N: oracle.Prod(rad...),
 		Check: func(i int64, r *fw.R) {
 			sps := get(i)
 			if !oracle.ArcsWellConditioned(sps) {
